@@ -9,6 +9,7 @@ import os
 
 from . import common
 from . import hevcgen as H
+from . import hevcmodel as M
 from . import hevcref as F
 from . import hevcrun as R
 
@@ -114,6 +115,29 @@ def run_job(job):
     else:
         res = R.run_tool(a, env=env, cwd=d)
     out = {"job": job, "fail": None, "cmd": res.cmdline(), "notes": {}}
+    if job.get("model_ans") is not None:
+        out["model_steps"] = 1
+        sc_ok = not job.get("tz")
+        if cmd in ("convert", "demux", "remove"):
+            m = M.parse_general(job["model_ans"])
+            if m is None:
+                r = ("err (the command fails)", res.brief()) if res.rc == 0 else None
+            elif res.rc != 0:
+                r = ("ok", res.brief())
+            else:
+                r = M.compare_files(m, outs, check_sc=sc_ok)
+        else:
+            m, merr = M.parse_list(job["model_ans"])
+            if m is None:
+                r = ("err (the command fails)", res.brief()) if res.rc == 0 else None
+            elif merr != (res.rc != 0):
+                r = ("error status" if merr else "exit status 0", res.brief())
+            else:
+                r = M.compare_list(m, outs["out"], check_sc=sc_ok)
+        if r is not None:
+            out["model_fail"] = ("hevc." + ("general " + cmd if cmd in ("convert", "demux", "remove") else cmd.split("-")[0]), r[0], r[1])
+    if job.get("model_only"):
+        return out
     if res.rc != 0:
         out["fail"] = ("exit status 0", res.brief())
         return out
@@ -173,6 +197,7 @@ def run(ctx):
     ctx.count("crafted SEI NALs", len(sets))
     jobs = []
     sid = 0
+    all_sei = [H.sei_nal(m, H.SEI_PREFIX, tid) for _, _, m in sets for tid in (0,)]
     cmds = ["convert", "demux", "remove", "mux", "inject-rpu"]
     while sets:
         r = rng.fork("st%d" % sid)
@@ -213,6 +238,8 @@ def run(ctx):
                     job["data"] = full
                     job["expected"] = F.ref_general(items, cmd, conv, discard=(c["discard"] and cmd == "convert"),
                                                     start_code=c["start_code"], drop=drop)
+                    job["mline"] = M.general_line(cmd, items, conv, discard=(c["discard"] and cmd == "convert"),
+                                                  start_code=c["start_code"], drop=drop)
                     if cmd != "convert":
                         c["discard"] = False
                     if c["stdin"]:
@@ -221,6 +248,7 @@ def run(ctx):
                     job["data"] = bl_bytes
                     job["el"] = el_bytes
                     job["expected"] = {"out": F.ref_mux(bl_aus, el_frames, conv, no_add_aud=c["no_add_aud"], start_code=c["start_code"], drop=drop)}
+                    job["mline"] = M.mux_line(bl_aus, el_frames, conv, no_add_aud=c["no_add_aud"], start_code=c["start_code"], drop=drop)
                 else:
                     if c["chunk"] in (64, 257):
                         c["chunk"] = r.choice([1024, 2048, 8192])
@@ -228,6 +256,7 @@ def run(ctx):
                     job["rpus"] = fresh
                     # inject on the base layer: the reference works on a stream view without EL / RPU
                     job["expected"] = {"out": F.ref_inject(_bl_view(st), fresh, no_add_aud=c["no_add_aud"], start_code=c["start_code"], drop=drop)}
+                    job["mline"] = M.inject_line(_bl_view(st), fresh, no_add_aud=c["no_add_aud"], start_code=c["start_code"], drop=drop)
                 jobs.append(job)
     # ---- class tz: trailing zero bytes (trailing_zero_8bits) behind SEI NALs, 1..3 of them, next start code 3 or 4 bytes
     tz_jobs = []
@@ -250,11 +279,40 @@ def run(ctx):
                     c = {"cmd": "convert", "drop": True, "chunk": r.choice([257, None]), "stdin": False}
                     cls = "absent" if pos < 0 else ("only" if k == 1 else "multi")
                     tz_jobs.append({"cfg": c, "sid": 5000 + tz_n, "st": st, "data": st.render(), "nhdr": 1, "tz": ntz, "tzcls": cls,
-                                    "nsc": nsc, "expected": F.ref_general(F.items_of(st), "convert", conv, drop=True)})
+                                    "nsc": nsc, "expected": F.ref_general(F.items_of(st), "convert", conv, drop=True),
+                                    "mline": M.general_line("convert", F.items_of(st), conv, drop=True)})
+
+    # ---- corner shapes, model correspondence only (no statement of the property is attached to them):
+    #  (a) the very first NAL of the stream is a prefix SEI holding only the HDR10+ message: it is dropped and the NAL
+    #      behind it is not taken for the first NAL of the frame (3-byte start code under --start-code annex-b)
+    #  (b) a payload type above 255: hevc_parser 0.6.8 overflows its u8 (dev profile): the command fails
+    cjobs = []
+    for i in range(6 if quick else 30):
+        r = rng.fork("corner%d" % i)
+        specs = H.gen_structure(r, 2, poc_bits=8)
+        st = H.build_stream(r, H.Codec(ps), specs, r.shuffle(rpus)[:2], el="none", prefix_sei=(0, 0), suffix_sei=(0, 0), tz=0,
+                            sc="four", aud="none", eos="none", max_slices=1, pad=(2, 6), rich_filler=False)
+        if i % 3 == 2:
+            st.aus[0].nals.insert(0, H.Nal(H.sei_nal([(300, b"\x11\x22\x33"), H.hdr10plus_message(r, 24, "safe")]), "psei"))
+        else:
+            st.aus[0].nals.insert(0, H.Nal(H.sei_nal([H.other_message(r, "other")]), "psei"))
+            st.aus[0].nals.insert(0, H.Nal(H.sei_nal([H.hdr10plus_message(r, size=r.choice(HDR_SIZES), style="safe")]), "psei"))
+        for drop in (True, False):
+            c = {"cmd": "convert", "drop": drop, "chunk": r.choice([257, None]), "stdin": False, "start_code": "annex-b"}
+            cjobs.append({"cfg": c, "sid": 6000 + i, "st": st, "data": st.render(), "nhdr": 1, "model_only": True, "expected": {},
+                          "mline": M.general_line("convert", F.items_of(st), conv, start_code="annex-b", drop=drop,
+                                                  late=M.first_nal_late(st.render(), c["chunk"]))})
 
     with R.Work("C18") as work:
-        for j in jobs + tz_jobs:
+        for j in jobs + tz_jobs + cjobs:
             j["work"] = work
+        ctx.count("cases through the Lean model (hevc.general / hevc.mux / hevc.inject with and without --drop-hdr10plus)",
+                  M.attach(jobs) + M.attach(tz_jobs) + M.attach(cjobs))
+        for o in R.pmap(run_job, cjobs):
+            ctx.evaluations += 1
+            ctx.count("class=corner (model only) %s" % ("model and CLI agree" if not o.get("model_fail") else "DISAGREE"))
+            _model_report(ctx, work, o["job"], o)
+        sei_correspondence(ctx, all_sei)
         results = R.pmap(run_job, jobs)
         for k, o in enumerate(results):
             j = o["job"]
@@ -267,6 +325,7 @@ def run(ctx):
                 ctx.nontriv("%d/%s" % (j["sid"], c["cmd"]))
             if k % 97 == 0:
                 ctx.sample("stream#%d (%d frames, %d HDR10+ SEI): %s" % (j["sid"], len(j["st"].aus), j["nhdr"], o["cmd"].replace(work.dir, "$W")))
+            _model_report(ctx, work, j, o)
             if o["fail"]:
                 _report(ctx, work, j, o)
         # trailing-zero class: same oracle, own histogram keys
@@ -277,12 +336,50 @@ def run(ctx):
             ctx.count("class=tz hdr10plus=%s zeros=%d next_sc=%d -> %s" % (j["tzcls"], j["tz"], j["nsc"], "DEVIATES" if o["fail"] else "ok"))
             for kk, vv in o["notes"].items():
                 ctx.count("note:" + kk, vv)
+            _model_report(ctx, work, j, o)
             if o["fail"]:
                 _report(ctx, work, j, o, tz=True)
         # third-party edge: payload type >= 255
         probe = _probe_big_type(work, ps, rpus)
         ctx.notes.append("probe: prefix SEI with payload type 300 through `--drop-hdr10plus convert`: %s" % probe)
         ctx.extra["payload_type_ge_255_probe"] = probe
+
+
+def sei_correspondence(ctx, nals):
+    """every crafted prefix SEI NAL through the model's `sei.drop` / `sei.msgs`, compared with the independent SEI
+    walker of the generator (the real function is private to the binary: it is reached through the CLI runs)"""
+    nals = list(dict.fromkeys(nals))
+    ans = M.run_model(["sei.drop " + n.hex() for n in nals] + ["sei.msgs " + n.hex() for n in nals])
+    for n, a, b in zip(nals, ans[:len(nals)], ans[len(nals):]):
+        ctx.count("sei.drop through the model")
+        try:
+            r = H.drop_hdr10plus_reference(n)
+            exp = "dropped" if r is None else "keep " + r.hex()
+            msgs = "ok " + (",".join("%d:%s" % (t, M.hx(p)) for t, p in H.parse_sei(n)) or "-")
+        except (ValueError, IndexError):
+            continue
+        if a != exp:
+            ctx.disagree("sei.drop (model vs independent SEI reference)", n.hex(), a, exp)
+        if b != msgs:
+            ctx.disagree("sei.msgs (model vs independent SEI walker)", n.hex(), b, msgs)
+
+
+def _model_report(ctx, work, j, o):
+    ctx.count("model steps compared with the CLI", o.get("model_steps", 0))
+    if not o.get("model_fail"):
+        return
+    c = j["cfg"]
+    mop, mm, mi = o["model_fail"]
+    files = {"input.hevc": j["data"]}
+    if "el" in j:
+        files["EL_in.hevc"] = j["el"]
+    if "rpus" in j:
+        files["rpu.bin"] = H.rpu_file_bytes(j["rpus"])
+    d = R.save_replay(ctx, "model-s%d-%s" % (j["sid"], c["cmd"]), files,
+                      {"command": o["cmd"].replace(work.dir, "."), "config": {x: y for x, y in c.items() if x != "pieces"},
+                       "model_op": mop, "model": mm, "implementation": mi, "structure": H.describe(j["st"])})
+    ctx.disagree("%s drop=%d" % (mop, 1 if c["drop"] else 0), "%s (seed %d): %s" % (d or "stream#%d" % j["sid"], ctx.seed,
+                 o["cmd"].replace(work.dir, "$W")), mm, mi)
 
 
 def _bl_view(st):
